@@ -113,9 +113,12 @@ class Materials:
         return p
 
     def put(self, data, *parts):
+        """Write a payload file atomically (several worker processes may want the same file at the same time)."""
         p = self.path(*parts)
-        with open(p, "wb") as f:
+        tmp = f"{p}.{os.getpid()}.tmp"
+        with open(tmp, "wb") as f:
             f.write(data)
+        os.replace(tmp, p)
         return p
 
     # ---- application containers
@@ -331,7 +334,7 @@ def version_bytes(name, v):
     return struct.pack("<HH", v & 0xFFFF, (v & 0xFFFF) ^ 0xFFFF)   # value and its antipole
 
 
-MODES = ("cfg", "setter", "name", "set_init_offset")
+MODES = ("cfg", "setter", "set_init_offset")
 
 
 # ------------------------------------------------------------------ executor
@@ -379,8 +382,8 @@ class Exec:
         cfg, data, plen = self.payloads(case, triple, r, use_yaml)
         req = case["req"]
         seg_at_req = next((s["name"] for s in t["segs"] if s["off"] == req), None)
-        if mode in ("name", "set_init_offset") and (seg_at_req is None or (mode == "name" and req == 0 and r.random() < 0.5)):
-            mode = "cfg" if mode == "name" else "setter"
+        if mode == "set_init_offset" and seg_at_req is None:
+            mode = "setter"
         tr = {"id": cid, "tb": tb + 1, "present": case["present"], "plen": plen, "req": req, "ev": [],
               "info": {"family": fam, "revision": rev, "mem_type": mt, "mode": mode, "yaml": use_yaml, "sig": t["sig"],
                        "config": {k: (os.path.basename(v) if isinstance(v, str) and os.sep in v else v) for k, v in cfg.items()}}}
@@ -390,9 +393,6 @@ class Exec:
         try:
             if mode == "cfg":
                 cfg["init_offset"] = req
-                bimg = BootableImage.load_from_config(cfg, search_paths=[self.mats.dir])
-            elif mode == "name":
-                cfg["init_offset"] = seg_at_req
                 bimg = BootableImage.load_from_config(cfg, search_paths=[self.mats.dir])
             elif mode == "setter":
                 bimg = BootableImage.load_from_config(cfg, search_paths=[self.mats.dir])
@@ -472,3 +472,246 @@ class Exec:
 
 def strip(t):
     return {k: t[k] for k in ("id", "tb", "present", "plen", "req", "ev")}
+
+
+# ------------------------------------------------------------------ verdict plumbing
+def key_of(t, tables, matched):
+    """Finding key derived from the witness: table signature, failing clause, input class."""
+    tab = tables[t["tb"] - 1]
+    sig = tab["sig"]
+    ev = t["ev"][min(matched, len(t["ev"]) - 1)]
+    k = ev["ev"]
+    names = [s["name"] for s in tab["segs"]]
+
+    def start():
+        b = next((e for e in t["ev"] if e["ev"] == "Build"), None)
+        eff = b["eff"] if b else 0
+        if eff == 0:
+            return "full"
+        return next((s["name"] for s in tab["segs"] if s["off"] == eff), f"{eff:#x}")
+
+    if k == "Crash":
+        if ev["of"] == "Parse":
+            return f"C14/{sig}/parse/start={start()}/crash:{ev['exc']}"
+        return f"C14/{sig}/{ev['of'].lower()}/crash:{ev['exc']}"
+    if k == "Build":
+        if ev["refused"]:
+            return f"C14/{sig}/build/refused"
+        if ev["eff"] < 0:
+            return f"C14/{sig}/build/init-offset-negative"
+        return f"C14/{sig}/build/init-snap"
+    if k == "Gap":
+        return f"C14/{sig}/gap/" + ("range" if ev["pat"] else "not-pattern")
+    if k == "Seg":
+        cls = "bytes" if not ev["ok"] else "api-offset" if ev["apiOff"] != ev["at"] else "api-length" if ev["apiLen"] != ev["len"] else "offset"
+        return f"C14/{sig}/{names[ev['i'] - 1]}/{cls}"
+    if k == "End":
+        return f"C14/{sig}/total-length"
+    inc = "+".join(names[e["i"] - 1] + (">size" if 0 < tab["segs"][e["i"] - 1]["size"] < e["len"] else "") for e in t["ev"] if e["ev"] == "Seg")
+    if k == "Parse":
+        why = "refused"
+        if not t.get("info", {}).get("selfparse", True):
+            why = "refused/container-parser-refuses-own-export"
+        return f"C14/{sig}/parse/start={start()}/{why}/inc={inc}"
+    if k == "PSeg":
+        b = next((e for e in t["ev"] if e["ev"] == "Build"), None)
+        p = next((e for e in t["ev"] if e["ev"] == "Parse"), None)
+        if b and p and p["init"] != b["eff"]:
+            return f"C14/{sig}/parse/start={start()}/init-misdetected"       # the parser settled on another start than the image has
+        cls = "missing" if not ev["present"] else "bytes" if not ev["prefixOk"] else "tail" if not ev["tailPat"] else "short"
+        return f"C14/{sig}/parse/start={start()}/{names[ev['i'] - 1]}/{cls}"
+    return f"C14/{sig}/{k}"
+
+
+def validate(v, tables, table_file, traces):
+    rej, res = tlc.tv("C14", "BimgTrace", [strip(t) for t in traces], env={"TABLE_FILE": table_file}, heap="6g", timeout=1200)
+    v.traces(len(traces))
+    v.extra["tv_states"] = v.extra.get("tv_states", 0) + res.distinct
+    by_id = {t["id"]: t for t in traces}
+    for tid, (matched, length, evname) in sorted(rej.items(), key=lambda x: str(x[0])):
+        t = by_id[tid]
+        ev = t["ev"][min(matched, len(t["ev"]) - 1)]
+        info = t.get("info", {})
+        v.violation(key_of(t, tables, matched),
+                    f"{info.get('family')}/{info.get('revision')}/{info.get('mem_type')} [{info.get('mode')}] present={t['present']} plen={t['plen']} "
+                    f"req={t['req']:#x}: event #{matched + 1} ({evname}) is not the reader's next step: {json.dumps(ev)[:300]}",
+                    {"trace": t, "table": tables[t["tb"] - 1], "failed_event": matched + 1})
+    return rej
+
+
+def canary(tables, table_file, traces):
+    """One accepted real trace must stay accepted, and be rejected after corrupting one logged number / fact."""
+    good = next((t for t in traces if t["ev"][-1]["ev"] == "Done" and sum(1 for e in t["ev"] if e["ev"] == "Seg") >= 2
+                 and any(e["ev"] == "Gap" for e in t["ev"])), None)
+    if good is None:
+        raise Machinery("no complete trace with two segments and a gap for the canary")
+    variants = []
+
+    def variant(name, fn):
+        t = json.loads(json.dumps(strip(good)))
+        t["id"] = name
+        fn(t)
+        variants.append(t)
+
+    variant("canary-good", lambda t: None)
+    variant("canary-offset", lambda t: next(e for e in t["ev"] if e["ev"] == "Seg" and e["at"] > 0).update(at=next(e for e in t["ev"] if e["ev"] == "Seg" and e["at"] > 0)["at"] + 1))
+    variant("canary-gap", lambda t: next(e for e in t["ev"] if e["ev"] == "Gap").update(pat=False))
+    variant("canary-total", lambda t: next(e for e in t["ev"] if e["ev"] == "End").update(total=next(e for e in t["ev"] if e["ev"] == "End")["total"] + 4))
+    variant("canary-parse", lambda t: [e for e in t["ev"] if e["ev"] == "PSeg"][-1].update(prefixOk=False))
+    variant("canary-eff", lambda t: t["ev"][0].update(eff=t["ev"][0]["eff"] + 1024))
+    rej, _ = tlc.tv("C14", "BimgTrace", variants, env={"TABLE_FILE": table_file})
+    want = {x["id"] for x in variants} - {"canary-good"}
+    if set(rej) != want:
+        raise Machinery(f"canary failed: rejected {sorted(rej)}, expected exactly {sorted(want)}")
+    return f"1 real trace accepted; {len(want)} single-field corruptions of it (offset, gap fill, total, parsed bytes, effective start) rejected"
+
+
+def plan(tier, cases, tables, triples, r):
+    """Assign cases to (family, revision, memory type) triples. Every triple gets cases; thorough: every case is executed."""
+    by_tb = {}
+    for tr in triples:
+        by_tb.setdefault(tr[3], []).append(tr)
+    cases_tb = {}
+    for c in cases:
+        cases_tb.setdefault(c["tb"] - 1, []).append(c)
+    jobs = []
+    for tb, trs in sorted(by_tb.items()):
+        cs = list(cases_tb.get(tb, []))
+        if not cs:
+            raise Machinery(f"GEN emitted no case for table {tables[tb]['sig']}")
+        r.shuffle(cs)
+        trs = list(trs)
+        r.shuffle(trs)
+        if tier == "quick":
+            # a covering subset: every (segment, presence), (segment, length), requested start of the table at least once,
+            # then at least two cases per triple
+            chosen, seen = [], set()
+            for c in cs:
+                feats = {("req", c["req"])} | {("p", i, p) for i, p in enumerate(c["present"])} | {("l", i, n) for i, n in enumerate(c["plen"])} \
+                        | {("rp", c["req"], i, p) for i, p in enumerate(c["present"])}
+                if not feats <= seen:
+                    seen |= feats
+                    chosen.append(c)
+            rest = [c for c in cs if c not in chosen]
+            n = max(len(chosen), 2 * len(trs))
+            while len(chosen) < n and rest:
+                chosen.append(rest.pop())
+            k = 0
+            while len(chosen) < n:          # tiny tables: reuse cases so that every triple is exercised
+                chosen.append(cs[k % len(cs)])
+                k += 1
+            cs = chosen
+        else:
+            k = 0
+            while len(cs) < 3 * len(trs):
+                cs.append(cs[k])
+                k += 1
+        for n, c in enumerate(cs):
+            jobs.append((c, trs[n % len(trs)]))
+    return jobs
+
+
+def run(tier):
+    import_spsdk()
+    v = Verdict(PROP, tier)
+    r = rng(PROP)
+    tables, triples = inventory()
+    mats = Materials()
+    mats.prepare(tables, triples)
+    table_menus(tables, triples, mats)
+    table_file = os.path.join(scratch(), "c14-tables.json")
+    json.dump(tables, open(table_file, "w"))
+    say(f"[C14] {len(triples)} (family, revision, memory type) triples, {len(tables)} distinct segment tables, payloads built ({v.timer.s()}s)")
+
+    # ---- MC + GEN
+    mc = tlc.mc("C14", "BimgMC", "BimgMC.cfg", env={"TABLE_FILE": table_file, "GEN_FULL": "1"}, workers=8, deadlock=False, heap="6g", timeout=900,
+                require_actions=("GRefuse", "GBuild", "Gap", "Seg", "End", "Parse", "ParseSeg", "Done"))
+    v.add_mc(mc)
+    cases = mc.json_prints()
+    if len(cases) < 1000 or len({c["tb"] for c in cases}) != len(tables):
+        raise Machinery(f"GEN emitted {len(cases)} cases for {len({c['tb'] for c in cases})} of {len(tables)} tables")
+    say(f"[C14] MC/GEN: {mc.distinct} states, {len(cases)} cases, lemmas hold ({v.timer.s()}s)")
+
+    # ---- execute on the real BootableImage
+    jobs = plan(tier, cases, tables, triples, r)
+    ex = Exec(tables, mats)
+    jobs = [(n, c, tr, MODES[n % len(MODES)]) for n, (c, tr) in enumerate(jobs)]
+    traces = pmap(lambda j: ex.run(*j), jobs, chunksize=4)
+    for t in traces:
+        fam, rev, mt = t["info"]["family"], t["info"]["revision"], t["info"]["mem_type"]
+        tab = tables[t["tb"] - 1]
+        last = max(i for i, p in enumerate(t["present"]) if p and tab["segs"][i]["name"] in CONTAINERS and tab["segs"][i]["off"] >= 0)
+        menu = mats.get(fam, rev, mt, tab, last)
+        t["info"]["selfparse"] = all(m["selfparse"] for m in menu)
+    v.count(len(traces))
+    covered = {(t["info"]["family"], t["info"]["revision"], t["info"]["mem_type"]) for t in traces}
+    if len(covered) != len(triples):
+        raise Machinery(f"only {len(covered)} of {len(triples)} triples were exercised")
+    for t in traces:
+        if any(e["ev"] == "Seg" for e in t["ev"]) or (t["ev"] and t["ev"][0].get("refused")):
+            v.nontrivial(json.dumps([t["info"]["family"], t["info"]["revision"], t["info"]["mem_type"], t["present"], t["plen"], t["req"], t["info"]["mode"]]))
+    for t in (traces[0], traces[len(traces) // 2], traces[-1]):
+        v.sample({k: t[k] for k in ("tb", "present", "plen", "req", "ev", "info")})
+    say(f"[C14] {len(traces)} cases executed on {len(covered)} triples ({v.timer.s()}s)")
+
+    v.extra["canary"] = canary(tables, table_file, traces)
+    validate(v, tables, table_file, traces)
+    parsed = sum(1 for t in traces if t["ev"][-1]["ev"] == "Done")
+    v.extra["parsed_back_completely"] = parsed
+    v.extra["tables"] = [t["sig"] for t in tables]
+    v.extra["material_notes"] = mats.notes
+    v.cov["exhaustive"] = tier == "thorough"
+    v.cov["checker_cmd"] = "TLC BimgMC (lemmas over all cases of all tables, case emission) ; TLC BimgTrace (decides every executed case)"
+    v.cov["rule"] = (
+        f"cases = initial states of BimgMC: for each of the {len(tables)} distinct segment tables of the device database, every subset of optional "
+        "segments x payload length menu (1, size-1, size, up to the next offset; three real container sizes; every XMCD length) x requested start "
+        "(0, every static segment start, one below, one above); thorough executes every case, quick a covering subset (every presence, length and "
+        "start of every table) with at least two cases per (family, revision, memory type); a case is non-trivial if the real image was built and "
+        "read (or the build was refused); distinct by (triple, case, API path)")
+    v.assumptions += [
+        "application containers are mandatory, the secondary container set and all header blocks except the image version are optional",
+        "payloads differ from the fill pattern in their first and last byte (an all-pattern block is indistinguishable from an absent one)",
+        "an opaque fixed-size block (key blob, key store, BEE header) longer than its nominal size is placed and checked for overlap, but its parse result is not asserted",
+        "requested starts inside the dynamic part of a table (behind the last static offset) and negative starts are outside the asserted domain",
+        "segment sizes and the alignment of dynamic segments (1024) are read from the segment classes at run time; offsets and the fill pattern from the device database",
+        "the init_offset spelled as a segment NAME in a configuration file is refused by the schema (format: number) although load_from_config handles it: observation, not asserted",
+        "containers are unsigned / CRC images built through the public MBI, HAB and AHAB builders; SB2.1 / SB3.1 files are golden binaries (anchors/C14)",
+    ]
+    return v.finish()
+
+
+def replay(path):
+    import_spsdk()
+    w = json.load(open(path))["witness"]
+    t0 = w["trace"]
+    info = t0["info"]
+    tables, triples = inventory()
+    tb = next((i for i, t in enumerate(tables) if t["sig"] == info["sig"]), None)
+    triple = next((tr for tr in triples if tr[:3] == (info["family"], info["revision"], info["mem_type"])), None)
+    if tb is None or triple is None or triple[3] != tb:
+        say(f"replay: table {info['sig']} / triple {info['family']},{info['revision']},{info['mem_type']} no longer exists in the device database")
+        return 2
+    mats = Materials()
+    mats.prepare(tables, [tr for tr in triples if tr[3] == tb][:1] + [triple])
+    table_menus(tables, [tr for tr in triples if tr[3] == tb][:1] + [tr for tr in triples], mats) if False else None
+    first = {}
+    for tr in triples:
+        first.setdefault(tr[3], tr)
+    table_menus([tables[tb]], [first[tb][:3] + (0,)], mats)
+    table_file = os.path.join(scratch(), "c14-tables.json")
+    for i, t in enumerate(tables):
+        t.setdefault("segs", [])
+        for s in t["segs"]:
+            s.setdefault("lens", [1])
+    json.dump(tables, open(table_file, "w"))
+    case = {"tb": tb + 1, "present": t0["present"], "plen": t0["plen"], "req": t0["req"]}
+    t = Exec(tables, mats).run(t0["id"], case, triple, info["mode"])
+    say(json.dumps({k: t[k] for k in ("present", "plen", "req", "ev")})[:1500])
+    rej, _ = tlc.tv("C14", "BimgTrace", [strip(t)], env={"TABLE_FILE": table_file})
+    if rej:
+        say(f"VIOLATION property=C14 replay={path}")
+        m = list(rej.values())[0][0]
+        say(f"  key={key_of(t, tables, m)} rejected at event #{m + 1}: {json.dumps(t['ev'][min(m, len(t['ev']) - 1)])[:300]}")
+        return 1
+    say("replay: trace accepted by the spec")
+    return 0
